@@ -962,6 +962,18 @@ func checkC16(w *World, r *Report) {
 	r.Rule("C16.R5", "a decoded message is created by the decoding call (C15.R8); the reader keeps nothing of one stream where another stream can see it", 2)
 	importRules(w, r, checkC15, "C15", "C16.R5", func(o *Obligation) bool { return o.Rule == "C15.R8" })
 	checkReaderStateless(w, r, a, "C16.R5")
+	// R6: the stream handler goroutine has no recover above it: what it calls to deliver must not be able to panic or
+	// throw for reasons of its own. The registry map it reads is only written under the write lock (C10.R1: a concurrent
+	// map read and write is a fatal error), the inbox ring it pushes into keeps its invariants (C14), and the channel
+	// of a response process is never closed under a late reply.
+	if r.Prop == "C16" {
+		r.Rule("C16.R6", "what the reader calls to deliver cannot crash for reasons of its own: registry lock discipline (C10.R1), ring invariants (C14.R1-R5), response channels never closed (C11.R4)", 12)
+		importRules(w, r, checkC10, "C10", "C16.R6", func(o *Obligation) bool { return o.Rule == "C10.R1" })
+		importRules(w, r, checkC14, "C14", "C16.R6", func(o *Obligation) bool {
+			return o.Rule == "C14.R1" || o.Rule == "C14.R2" || o.Rule == "C14.R3" || o.Rule == "C14.R4" || o.Rule == "C14.R5"
+		})
+		checkResponseChanOpen(w, r, "C16.R6")
+	}
 	// R4 custom processers
 	procI, _ := w.Named("actor", "Processer").Underlying().(*types.Interface)
 	n := 0
@@ -1224,6 +1236,47 @@ func checkC17(w *World, r *Report) {
 			}
 		}
 		r.Check(okRE, "C17.R3", fname(a.wInit)+":stream-open-failed", "when the stream cannot be opened the writer shuts down", site, "a failed stream open leaves a dead writer registered")
+		// the context given to the stream-open call is the context of the whole stream, not of the call: a deadline on it
+		// tears the healthy connection down when it expires
+		{
+			var limited []string
+			nOpen := 0
+			var derive func(v ssa.Value, seen map[ssa.Value]bool)
+			derive = func(v ssa.Value, seen map[ssa.Value]bool) {
+				v = w.resolve(v)
+				if seen[v] {
+					return
+				}
+				seen[v] = true
+				switch x := v.(type) {
+				case *ssa.Extract:
+					derive(x.Tuple, seen)
+				case *ssa.Phi:
+					for _, e := range x.Edges {
+						derive(e, seen)
+					}
+				case *ssa.Call:
+					if f := x.Call.StaticCallee(); f != nil && f.Pkg != nil && f.Pkg.Pkg.Path() == "context" {
+						if strings.Contains(f.Name(), "Timeout") || strings.Contains(f.Name(), "Deadline") {
+							limited = append(limited, "context."+f.Name()+" at "+w.pos(x.Pos()))
+						}
+						if len(x.Call.Args) > 0 {
+							derive(x.Call.Args[0], seen)
+						}
+					}
+				}
+			}
+			for _, in := range ig.ins {
+				c := callOf(in)
+				if c == nil || !c.IsInvoke() || c.Method.Name() != "Receive" || len(c.Args) != 1 || !strings.HasSuffix(c.Value.Type().String(), "DRPCRemoteClient") {
+					continue
+				}
+				nOpen++
+				derive(c.Args[0], map[ssa.Value]bool{})
+			}
+			r.Check(len(limited) == 0 && nOpen > 0, "C17.R3", fname(a.wInit)+":stream-context-unbounded", "the context the outbound stream is opened with carries no deadline (it lives as long as the stream)", site,
+				"the stream's context comes from "+strings.Join(limited, ", ")+": when it expires the established stream is cancelled, a peer that is up is reported unreachable and the messages in flight are lost")
+		}
 		// lost connection: a goroutine waits on conn.Closed() and then shuts down
 		okLC := false
 		for _, in := range ig.ins {
@@ -1408,7 +1461,7 @@ func checkC17(w *World, r *Report) {
 	// R8: the inboxes a remote message waits in (writer, target) keep it and its order: ring transfers (C14.R2-R5)
 	r.Rule("C17.R8", "queued deliveries survive a growing inbox in order (C14.R2-R5)", 8)
 	importRules(w, r, checkC14, "C14", "C17.R8", func(o *Obligation) bool {
-		return o.Rule == "C14.R2" || o.Rule == "C14.R3" || o.Rule == "C14.R4" || o.Rule == "C14.R5"
+		return o.Rule == "C14.R1" || o.Rule == "C14.R2" || o.Rule == "C14.R3" || o.Rule == "C14.R4" || o.Rule == "C14.R5"
 	})
 	// R5
 	{
